@@ -30,4 +30,16 @@ CLAIMS["C16"] = {"text": "TLC enumerates every string up to 2 (quick) / 3-4 (tho
                         "split/join, case laws) on the reference LqFilters and every case is rendered by the implementation and "
                         "trace-validated against the reference."}
 
+CLAIMS["C15"] = {"text": "TLC enumerates every array up to 3 (quick) / 4 (thorough) elements over four element universes times the "
+                        "array-filter calls and two-filter chains, checks on the reference that sort is an ascending permutation "
+                        "(lacking keys first), reverse an involution, uniq a first-occurrence subsequence, compact/first/last/"
+                        "size/concat/map laws, and emits probes that print the result element-wise followed by the input again "
+                        "(input unchanged), in every Go representation that can hold the array (generic, typed slice, fixed "
+                        "array, ordered map); each is rendered by the implementation and trace-validated."}
+CLAIMS["C17"] = {"text": "TLC visits every (receiver, numeric filter, argument) over integers -K..K, quarters, numeric/non-numeric "
+                        "strings and nil (K=4 quick, 12 thorough), checks arithmetic laws on the exact-rational reference "
+                        "(inverse, commutativity, floor<=x<=ceil, round-half-up, division bounds, zero divisor and non-number "
+                        "are errors) and every case is rendered by the implementation and trace-validated (exact output "
+                        "spelling where the result has a finite decimal expansion)."}
+
 NOT_CLAIMED = {}
